@@ -18,7 +18,8 @@ CLAIM = dict(
 )
 TRUSTED = [
     "modelled: get_borders, find_degen, get_bands_in_range (no select_bands / Ebandmin / Ebandmax), select_window_degen",
-    "not modelled (oracle only): Tabulator.__call__ value assignment, Data_K.get_bands_in_range_groups glue",
+    "not modelled (oracle only): Tabulator.__call__ value assignment, Data_K.get_bands_in_range_groups glue, the "
+    "hand-over of the user's degen_thresh (0, tiny, th, huge) from Calculator.__init__ to the grouping (thresh_oracle)",
     "energies are dyadic rationals so that numpy's float subtraction/comparison is exact and equals the model's",
 ]
 RULE = ("sorted band arrays with multiplets of size 1-5 (gaps exactly 0, just below and just above the threshold), "
@@ -206,6 +207,7 @@ def oracle(ctx, scale):
                              f"got {got} expected {want}", case)
     groups_oracle(ctx, scale)
     tab_oracle(ctx, scale)
+    thresh_oracle(ctx, scale)
 
 
 def groups_oracle(ctx, scale):
@@ -297,6 +299,70 @@ def tab_oracle(ctx, scale):
                 for a, b in blocks:
                     if np.abs(d[a:b] - d[a]).max() > 1e-9 * (1 + np.abs(d).max()):
                         ctx.fail(f"tabulated {key} differs inside degenerate block {(a, b)}", dict(case, values=d[a:b]))
+
+
+def spec_blocks(E, th):
+    """the blocks the property prescribes (no Kramers): cut exactly where the gap is > th"""
+    cuts = [0] + [i for i in range(1, len(E)) if E[i] - E[i - 1] > th] + [len(E)]
+    return list(zip(cuts[:-1], cuts[1:]))
+
+
+def thresh_oracle(ctx, scale):
+    """the threshold the USER gives to a calculator is the threshold of the blocks: real Tabulators (and, through
+    the same Calculator base class, a Fermi-sea calculator) on a k.p model  H(k) = diag(e_i + a_i.k)  evaluated at
+    k=0, where the e_i are the dyadic multiplet arrays of the generator (gaps exactly 0, th/4, th/2, th, 17/16 th..)
+    and every band has its own velocity a_i.  degen_thresh sweeps th itself, 0 (exact degeneracy only: gap 0 <= 0 is
+    still one block), a tiny and a huge value.  Expected: band n carries the mean of a over the block of n that the
+    property prescribes for THAT threshold - equal inside a block, not mixed across a boundary."""
+    from ..wbsys import wb
+    rng = ctx.rng
+    for it in range(ctx.n(6, 40) * scale):
+        E, th = gen_energies(rng, nmax=7)
+        n = len(E)
+        Ef = np.array([float(e) for e in E])
+        a = np.array([[Fr(rng.randint(-16, 16), 8) for _ in range(3)] for _ in range(n)], dtype=object)
+        af = a.astype(float)
+
+        def ham(k, Ef=Ef, af=af):
+            return np.diag(Ef + af @ np.asarray(k, dtype=float)).astype(complex)
+
+        def dham(k, af=af, n=n):
+            d = np.zeros((n, n, 3), dtype=complex)
+            d[np.arange(n), np.arange(n), :] = af
+            return d
+        with quiet():
+            system = wb.system.SystemKP(Ham=ham, derHam=dham, kmax=1.0)
+        for thr in [Fr(0), th, th / 4, Fr(1, 2 ** 40), Fr(100)][:ctx.n(5, 5)]:
+            case = dict(E=Ef, velocities=af, degen_thresh=float(thr), what="SystemKP diag(e_i + a_i.k) at k=0")
+            with ctx.attempt("Tabulator / calculator with user threshold", case):
+                with quiet():
+                    calcs = {"E": wb.calculators.tabulate.Energy(degen_thresh=float(thr)),
+                             "V": wb.calculators.tabulate.Velocity(degen_thresh=float(thr))}
+                    res = wb.evaluate_k(system, k=np.zeros(3), calculators=calcs, return_single_as_dict=True)
+                Eg = E
+                blocks = spec_blocks(Eg, thr)
+                Et = res["E"].data[0]
+                for x, y in blocks:
+                    if np.abs(Et[x:y] - Ef[x:y].mean()).max() > 1e-12:
+                        ctx.fail(f"tabulated Energy of block {(x, y)} is not the block average of the band energies for "
+                                 f"degen_thresh={float(thr)}", dict(case, blocks=blocks, E_tab=Et[x:y]))
+                        break
+                ctx.case(signature=("thr", tuple(E), thr, tuple(map(tuple, a))),
+                         nontrivial=any(y - x > 1 for x, y in blocks) and len(blocks) > 1)
+                ctx.count("oracle.thresh.zero" if thr == 0 else "oracle.thresh.positive")
+                V = res["V"].data[0]
+                for x, y in blocks:
+                    want = af[x:y].mean(axis=0)
+                    if np.abs(V[x:y] - V[x]).max() > 1e-9:
+                        ctx.fail(f"tabulated Velocity differs inside the block {(x, y)} prescribed by "
+                                 f"degen_thresh={float(thr)} (gaps {[float(Eg[i] - Eg[i - 1]) for i in range(x + 1, y)]}): "
+                                 f"the multiplet was split", dict(case, blocks=blocks, V=V[x:y]))
+                        break
+                    if np.abs(V[x:y] - want).max() > 1e-9:
+                        ctx.fail(f"tabulated Velocity of block {(x, y)} is not the block average for "
+                                 f"degen_thresh={float(thr)}: bands separated by more than the threshold were mixed",
+                                 dict(case, blocks=blocks, V=V[x:y], want=want))
+                        break
 
 
 def replay(ctx, case):
